@@ -9,6 +9,7 @@ from pathlib import Path
 from crosshair.tracers import NoTracing
 
 from vt import rt, world
+from vt.lift import RealFallback
 from vt.core import digits, shard, tick
 from vt.harness import hist
 from vt.harness.gc import R, Repository, exceptions, fresh_repo, users
@@ -286,7 +287,7 @@ def _coop_store():
 _STORE = None
 
 
-class _CacheSelf:
+class _CacheSelf(RealFallback):
     def __init__(self, d):
         self._cache_directory = str(d)
 
